@@ -303,7 +303,18 @@ def decodeDomain (nb q : Nat) (bs : List UInt8) : Except RdErr (DomainRec × Lis
   | .ok (a5, r) =>
   match takeN 1 r with
   | .error e => .error e
-  | .ok (b, r) => .ok (⟨beToNat c, a1, a2, a3, a4, a5, beToNat b != 0⟩, r)
+  | .ok (b, r) =>
+    -- the flag is written as 0 or 1; any other byte is not an encoding `WriteTo` produces
+    if beToNat b ≤ 1 then .ok (⟨beToNat c, a1, a2, a3, a4, a5, beToNat b != 0⟩, r) else .error .range
+
+/-- bytes a FAILING `ReadFrom` has taken from the reader (= the count it must return): up to and including the first complete element
+    that is not reduced; else the whole stream when it ends inside a field; else (flag byte) the whole encoding -/
+def consumedOnError (nb q : Nat) (bs : List UInt8) : Nat :=
+  let bad := (List.range 5).find? (fun i =>
+    8 + nb * (i + 1) ≤ bs.length && beToNat ((bs.drop (8 + nb * i)).take nb) ≥ q)
+  match bad with
+  | some i => 8 + nb * (i + 1)
+  | none => if bs.length < 8 + 5 * nb + 1 then bs.length else 8 + 5 * nb + 1
 
 /-- `ReadFrom(r)`: a reader is the sequence of chunks its `Read` calls return -/
 def readFrom (nb q : Nat) (chunks : List (List UInt8)) : Except RdErr (DomainRec × List UInt8) :=
@@ -607,8 +618,8 @@ def handle (args : List String) : String :=
     | some q, some nb, some _chunk =>
       -- the answer does not depend on how the reader chunks the bytes
       match readFrom nb q [parseBytes bs] with
-      | .error .eof => "err:eof"
-      | .error .range => "err:range"
+      | .error .eof => "err:eof " ++ toHex (consumedOnError nb q (parseBytes bs))
+      | .error .range => "err:range " ++ toHex (consumedOnError nb q (parseBytes bs))
       | .ok (d, _) => " ".intercalate [toHex (8 + 5*nb + 1), toHex d.card, toHex d.cardInv, toHex d.gen, toHex d.genInv,
           toHex d.g, toHex d.gInv, boolStr d.precomp]
     | _, _, _ => "bad-op"
